@@ -197,6 +197,11 @@ func (in *Interp) callFunction(fn *ssa.Function, args []Value, fv []Value, g *Te
 		})
 	}
 	if intr := in.lookupIntrinsic(fn); intr != nil {
+		if in.implicitPts && in.controller != nil {
+			if n := intrinsicName(fn); strings.HasPrefix(n, "sync/atomic.") || strings.HasPrefix(n, "(*sync.") {
+				in.withGuard(g, func() { in.implicitPoint(n) })
+			}
+		}
 		in.stubLog[intrinsicName(fn)]++
 		var r Value
 		in.withGuard(g, func() { r = intr(in, fn, args, g) })
@@ -690,8 +695,8 @@ func (in *Interp) visit(f *Frame, b *ssa.BasicBlock, instr ssa.Instruction) {
 		*p = in.zero(ins.Type().Underlying().(*types.Pointer).Elem())
 		setv(ins, Ptr{p})
 	case *ssa.MakeSlice:
-		n := in.getTerm(f, ins.Len)
-		c := in.getTerm(f, ins.Cap)
+		n := in.idx64(in.getTerm(f, ins.Len), ins.Len.Type())
+		c := in.idx64(in.getTerm(f, ins.Cap), ins.Cap.Type())
 		in.rtCheck(ts.Or(ts.Cmp(OpSlt, c, ts.BV(64, 0)), ts.Cmp(OpSlt, n, ts.BV(64, 0))), "makeslice: len/cap out of range")
 		in.rtCheck(ts.Cmp(OpUlt, c, n), "makeslice: len larger than cap")
 		capN := c.val
